@@ -38,6 +38,8 @@ pub struct Ctl {
     pub fault_at: Cell<Option<u64>>,
     pub fault_kind: Cell<FaultKind>,
     pub fault_fired: Cell<Option<OpKind>>,
+    /// added to the call index when the ErrorKind of an injected error is chosen
+    pub fault_kind_sel: Cell<u64>,
     /// max bytes per read/write call (0 = unlimited)
     pub chunk: Cell<usize>,
     /// if true, chunk sizes vary pseudo-randomly in 1..=chunk
@@ -66,6 +68,7 @@ impl Ctl {
             fault_at: Cell::new(None),
             fault_kind: Cell::new(FaultKind::Error),
             fault_fired: Cell::new(None),
+            fault_kind_sel: Cell::new(0),
             chunk: Cell::new(0),
             chunk_random: Cell::new(false),
             interrupt_every: Cell::new(0),
@@ -121,7 +124,15 @@ impl Ctl {
                 self.fault_fired.set(Some(kind));
                 match self.fault_kind.get() {
                     FaultKind::Error => {
-                        return Err(io::Error::new(io::ErrorKind::Other, "verif: injected fault"))
+                        // the kind of the injected error varies with the call index: a stream
+                        // may fail with any kind (a cut TLS / HTTP transport reports
+                        // UnexpectedEof from read), and every one of them is an I/O failure
+                        // that has to surface. Interrupted is excluded: it has retry semantics.
+                        const KINDS: [io::ErrorKind; 8] = [
+                            io::ErrorKind::Other, io::ErrorKind::UnexpectedEof, io::ErrorKind::BrokenPipe, io::ErrorKind::TimedOut,
+                            io::ErrorKind::ConnectionReset, io::ErrorKind::PermissionDenied, io::ErrorKind::InvalidData, io::ErrorKind::WouldBlock,
+                        ];
+                        return Err(io::Error::new(KINDS[((idx + self.fault_kind_sel.get()) % 8) as usize], "verif: injected fault"));
                     }
                     FaultKind::WriteZero => {
                         if kind == OpKind::Write {
@@ -321,6 +332,7 @@ pub fn fill_byte(seed: u64, i: u64) -> u8 {
 /// Write + Seek + Read. Writes of at most `lit_max` bytes are stored literally; larger
 /// writes must be "synthetic payloads" (16-byte tag: magic, seed, len; followed by
 /// fill_byte(seed, i)) and are verified while being written, then stored as `Fill`.
+#[derive(Clone)]
 pub struct SparseStream {
     /// sorted by start, non-overlapping
     pub extents: Vec<(u64, Extent)>,
